@@ -12,7 +12,7 @@ from pyvc.models_path import PathVal
 from pyvc.session import b_and, b_implies, b_not, b_or, tt
 from pyvc.sessionenv import Session
 from pyvc.unit import REGISTRY, LoopSpec, contract
-from pyvc.values import BoundMethod, Builtin, Obj
+from pyvc.values import BoundMethod, Builtin, Obj, Opaque
 
 SERVER = "aioftp.server"
 
@@ -175,6 +175,15 @@ def make_handler_setup(meth, mode):
         sess.verb = {v: k for k, v in VERBS.items()}.get(meth)
         sess.rename_from0 = sess.conn.slots["rename_from"].fut.value
         u.sess = sess
+        if meth == "user":
+            # C15 wiring: the control stream carries the two server-level throttles (dispatcher set-up contract) and,
+            # after an earlier login on this session, that user's two
+            th = sess.conn.slots["command_connection"].fut.value.fields["throttles"]
+            th.update(server_global=sess.server.fields["throttle"], server_per_connection=Opaque("this-session's-clone"))
+            # (the entries of an earlier login are present: USER must replace them; with the keys absent the same
+            #  dict.update call adds them - not forked, it would double every path of the unit)
+            th.update(user_global=Opaque("previous-user's-shared-throttle"), user_per_connection=Opaque("previous-user's-connection-throttle"))
+            sess.throttles0 = dict(th)
         rest = fresh("str", "rest")
         # what parse_command hands over: a decoded line without trailing whitespace (rstrip'ed)
         f = it.getattr_(sess.server, meth)
@@ -282,7 +291,7 @@ def define_handler_units():
                 c.mode = "PIPE"
                 c.pipe_only_c03 = True
                 continue
-            c = contract(SERVER, f"Server.{meth}", props=["C02", "C03", "C04", "C05", "C11", "C13", "C16", "C17", "C19"] + (["C10"] if meth == "user" else []) + (["C14"] if meth == "abor" else []) + (["C20"] if meth == "pass_" else []) + (["C08"] if meth == "pwd" else []), name=f"Server.{meth}#{mode}")
+            c = contract(SERVER, f"Server.{meth}", props=["C02", "C03", "C04", "C05", "C11", "C13", "C16", "C17", "C19"] + (["C10", "C15"] if meth == "user" else []) + (["C14"] if meth == "abor" else []) + (["C20"] if meth == "pass_" else []) + (["C08"] if meth == "pwd" else []), name=f"Server.{meth}#{mode}")
             c.setup = make_handler_setup(meth, mode)
             c.uses = [(SERVER, "Server.get_paths"), (SERVER, "User.get_permissions#summary"), (SERVER, "Server._start_passive_server")]
             c.exit_hook = pasv_exit if meth in ("pasv", "epsv") else handler_exit
@@ -370,6 +379,7 @@ def c05_exit(S, outcome):
         if code in ("230", "331") and isinstance(u.fut.value, Obj):
             cwd = conn.slots["current_directory"]
             ctx.check(f"{name}/exit:working-directory-reset-to-home", z3.BoolVal(cwd.fut.value is u.fut.value.fields["home_path"]), info=T5)
+        c15_user_exit(S, code)
     if verb == "pass":
         # C20: what PASS answers (and therefore what write_line logs) does not depend on the password text
         from contracts.c20_logs import depends_on
@@ -400,6 +410,44 @@ def c05_exit(S, outcome):
     if verb in ("list", "mlsd", "retr", "stor", "appe"):
         spawned = [e for e in ctx.events if e[0] == "spawn"]
         ctx.check(f"{name}/exit:transfer-task-started-iff-150", z3.BoolVal((len(spawned) == 1) == (code == "150")), info=T5)
+
+
+def c15_user_exit(S, code):
+    """C15 wiring at USER: the per-user throttle is the one object the server keeps for that user (shared by all of the
+    user's sessions, created from the user's limits on first use); the per-user-connection throttle is a fresh object
+    with the user's per-connection limits; the server-level throttles of the stream stay as they were"""
+    sess, it = S.vars["sess"], S.it
+    ctx = it.ctx
+    name = S.contract.qualname
+    T15 = {"props": ["C15"]}
+    conn = sess.conn
+    th = conn.slots["command_connection"].fut.value.fields["throttles"]
+    th0 = sess.throttles0
+    keep = all(th.get(k) is th0[k] for k in ("server_global", "server_per_connection"))
+    ctx.check(f"{name}/exit:server-level-throttles-untouched", z3.BoolVal(bool(keep and set(th) <= {"server_global", "server_per_connection", "user_global", "user_per_connection"})), info=T15)
+    if code not in ("230", "331"):
+        return
+    user = conn.slots["user"].fut.value
+    tpu = sess.server.fields["throttle_per_user"]
+    shared = tpu.vals.get(id(user))
+    ctx.check(f"{name}/exit:per-user-throttle-is-the-server's-one-object-for-this-user", z3.BoolVal(shared is not None and tpu.member.get(id(user)) is True and th.get("user_global") is shared), info=T15)
+
+    def same(a, b):
+        return it.unbox(a) is it.unbox(b) or it.eq_term(it.unbox(a), it.unbox(b)) is True
+
+    def built_from(st, rl, wl):
+        return isinstance(st, Obj) and st.cls.name == "StreamThrottle" and all(isinstance(st.fields[s], Obj) and st.fields[s].cls.name == "Throttle" for s in ("read", "write")) and st.fields["read"] is not st.fields["write"] and same(st.fields["read"].fields["_limit"], user.fields[rl]) and same(st.fields["write"].fields["_limit"], user.fields[wl])
+
+    created = [e for e in ctx.events if e[0] == "map.set" and e[1] == "throttle_per_user"]
+    if created:
+        ctx.check(f"{name}/exit:first-login-creates-the-user-throttle-from-the-user's-limits", z3.BoolVal(bool(len(created) == 1 and created[0][2] is user and built_from(shared, "read_speed_limit", "write_speed_limit"))), info=T15)
+    else:
+        ctx.check(f"{name}/exit:later-logins-reuse-the-user-throttle", z3.BoolVal(isinstance(shared, Opaque)), info=T15)
+    upc = th.get("user_per_connection")
+    fresh_upc = upc is not th0.get("user_per_connection") and upc is not shared and built_from(upc, "read_speed_limit_per_connection", "write_speed_limit_per_connection")
+    if fresh_upc:
+        fresh_upc = upc.fields["read"] is not getattr(shared, "fields", {}).get("read") and upc.fields["write"] is not getattr(shared, "fields", {}).get("write")
+    ctx.check(f"{name}/exit:per-user-connection-throttle-is-fresh-with-the-user's-per-connection-limits", z3.BoolVal(bool(fresh_upc)), info=T15)
 
 
 _orig_handler_exit = handler_exit
